@@ -147,8 +147,8 @@ def r01b(ck, prog):
     if not comparators:
         raise AnalysisBroken("R01b slot: msa_sort_rank passes no comparator to qsort")
     qpos = [sr.cfg.position(c) for c in sr.body.calls("qsort")]
-    for r in sr.success_returns():
-        if sr.cfg.reaches(None, sr.cfg.position(r), avoid=qpos):
+    for r in sr.success_returns()[:1]:
+        if sr.succeeds_avoiding(qpos):
             ck.violation("R01b", "R01b/msa_sort_rank/conditional", site(prog, r),
                          "msa_sort_rank can return success without restoring the caller's order", prog.config)
     for F in prog.all_functions:
@@ -181,6 +181,9 @@ def r01b(ck, prog):
                                 # constructors: object under construction inside the construction loop
                                 ok = any(c.callee in ("malloc",) or "MMALLOC" in c.mac for c in loops[0].find("CallExpr")) or \
                                      any("MMALLOC" in x.mac for x in loops[0].walk())
+                if not ok and F.name == first and mode == "write" and r0 is not None and r0.k == "DeclRefExpr":
+                    raise AnalysisBroken("R01b: %s records rank = %s in a loop shape the rule does not recognise (no counted for-loop "
+                                         "indexing sequences[%s])" % (F.name, r0.text(), r0.text()))
                 if not ok:
                     ck.violation("R01b", "R01b/%s/rank-write" % F.name, where,
                                  "%s assigns msa_seq.rank = %s: only the input check (position in the caller's order), "
@@ -219,6 +222,8 @@ def r01b(ck, prog):
         desc = [x for x in spec if (x["op"] in (">", ">=") and x["sign"] == -1) or (x["op"] in ("<", "<=") and x["sign"] == 1)]
         ck.inst("R01b", site(prog, C, "direction"), "%s sorts rank ascending: %d ascending test(s), %d descending" % (
             cn, len(asc), len(desc)), prog.config)
+        if not spec:
+            raise AnalysisBroken("R01b: the rank comparator %s is not written as if(one->rank OP two->rank) return c; its direction is not decided" % cn)
         if not asc or desc:
             ck.violation("R01b", "R01b/%s/direction" % cn, site(prog, C),
                          "the rank comparator does not order ascending: rows would come back in reverse/other order", prog.config)
